@@ -148,7 +148,7 @@ public class Drv {
         String id = parts.length > 1 ? parts[1] : "-";
         try {
             switch (parts[0]) {
-                case "CKS": setChecksums(parts[1].equals("1")); return "R - ok";
+                case "CKS": setChecksums(!parts[1].equals("0")); return "R - ok";
                 case "REUSE": reuse = parts[1].equals("1"); return "R - ok";
                 case "ENC": {
                     String arg = parts.length > 3 ? parts[3] : "";
